@@ -537,10 +537,19 @@ class SReal:
     def sqrt(self):
         a = self
         nan = Or(a.nan, a.ninf, And(a.is_fin(), a.r < 0))
-        s = CUR.fresh_real('sqrt')
-        ok = And(a.is_fin(), a.r >= 0)
-        CUR.side(Implies(ok, z3.And(s >= 0, s * s == a.r)))
-        CUR.side(Implies(Not(ok), s == 0))
+        # one root variable per argument term (hash-consed): recomputing the same square root in
+        # the harness yields the very same term as in the code under analysis
+        key = tuple(x.get_id() if z3.is_expr(x) else x for x in (a.r, a.nan, a.pinf, a.ninf))
+        cache = CUR.sqrt_cache
+        hit = cache.get(key)
+        if hit is not None and hit[0].eq(a.r):
+            s = hit[1]
+        else:
+            s = CUR.fresh_real('sqrt')
+            cache[key] = (a.r, s)
+            ok = And(a.is_fin(), a.r >= 0)
+            CUR.side(Implies(ok, z3.And(s >= 0, s * s == a.r)))
+            CUR.side(Implies(Not(ok), s == 0))
         return SReal(s, nan, a.pinf, False)
 
     def __abs__(self):
@@ -754,6 +763,7 @@ class Explorer:
         self.path_failed = False
         self.refiners = []
         self.law_stubs = []
+        self.sqrt_cache = {}
 
     # ---- solver plumbing
     def _check(self, *assumptions, need_model=False):
@@ -1060,6 +1070,14 @@ class Explorer:
             cur = self._last.model()
         return m
 
+    def lemma(self, cond, label):
+        """check `cond` like any other clause and, once decided (unsat of its negation), keep it
+        as an assertion of the path so that later, larger queries can use it"""
+        r = self.check(cond, label)
+        if r is True:
+            self.side(cond)
+        return r
+
     def fail(self, label, detail=''):
         """Unconditional failure on this path (reached a state that must not be reachable)."""
         return self.check(False, label, detail=detail)
@@ -1221,6 +1239,8 @@ class Concrete:
 
     def fail(self, label, detail=''):
         return self.check(False, label)
+
+    lemma = check
 
     def run(self, harness):
         try:
